@@ -1,0 +1,12 @@
+//go:build verif
+
+package verifapi
+
+import "github.com/deepteams/webp/internal/lossy"
+
+// Re-export for the VP8 frame assembler (property C02).
+
+// AssembleFrame is (*lossy.VP8Encoder).assembleFrame for a width x height picture.
+func AssembleFrame(width, height int, part0 []byte, tokenParts [][]byte) []byte {
+	return lossy.VerifAssembleFrame(width, height, part0, tokenParts)
+}
